@@ -10,8 +10,8 @@ THEOREMS = ['OrderProto.rlex_irrefl', 'OrderProto.rlex_trans', 'OrderProto.rlex_
             'C03.leB_total', 'C03.leB_trans', 'C03.filtrationOrder_sorted', 'C03.filtrationOrder_perm', 'C03.filtrationOrder_eq',
             'MfndProto.facet_ord', 'MfndProto.final_eq', 'MfndProto.final_ge', 'MfndProto.final_mono', 'MfndProto.final_least', 'MfndProto.fold_spec',
             'Mfnd2Proto.walk_sorted', 'Mfnd2Proto.walk_nodup', 'Mfnd2Proto.walk_inc', 'Mfnd3Proto.find_setVal', 'Mfnd3Proto.mem_walk_iff',
-            'Mfnd3Proto.fold_refines', 'Mfnd3Proto.mfnd_spec', 'Mfnd3Proto.sorted_setVal', 'TrieProto.find_prune', 'TrieProto.survives_sublevel']
-PARTIAL = ['C03_extend_partial: closed form of the extended filtration is the Python spec (checked on every input), not a Lean theorem; '
+            'Mfnd3Proto.fold_refines', 'Mfnd3Proto.mfnd_spec', 'Mfnd3Proto.sorted_setVal', 'TrieProto.find_prune', 'TrieProto.survives_sublevel', 'ExtDecode.decode_up', 'ExtDecode.decode_down', 'ExtDecode.decode_apex']
+PARTIAL = ['C03_extend_partial: decoding is proved to invert the encoding of both parts (decode_up, decode_down, decode_apex); the closed form of the extended filtration after make_filtration_non_decreasing is the Python spec (checked on every input), not a Lean theorem; '
            'IEEE arithmetic and TBB internals outside the model (inputs chosen so that the double computations are exact)']
 ASSUMPTIONS = ['std::sort / std::stable_sort / tbb::parallel_sort return a sorted permutation (order_unique shows that determines the result)',
                'extended filtration inputs have max-min of the vertex values a power of two, so 1/(max-min) and all products are exact in double/float']
